@@ -132,8 +132,13 @@ class _FileProxy:
 
 
 class FaultFS:
-    def __init__(self, root, target, stale_pids=(), stale=()):
+    def __init__(self, root, target, stale_pids=(), stale=(), ext=None):
         self.root = os.path.realpath(root)
+        # paths OUTSIDE the fake procfs that a query looks at because a procfs record of some pid names them (the backing
+        # path of a mapping printed in /proc/<pid>/smaps): absolute path -> "<pid>/map/<i>". An os.stat of one of them is
+        # an access of the call like any other: it gets an index, is logged, and may be the one the plan refuses. What
+        # it answers otherwise does not depend on the state of the process (the real file system decides).
+        self.ext = dict(ext or {})
         self.target = target
         self.stale_pids = set(stale_pids)
         self.stale = set(stale)          # relative paths that behave as gone although listed
@@ -291,8 +296,27 @@ class FaultFS:
         self.unknown.append("zombie %s %s" % (kind, sub))
         return None
 
+    def _ext(self, path):
+        if isinstance(path, bytes):
+            path = os.fsdecode(path)
+        if isinstance(path, str) and self.ext:
+            return self.ext.get(path)
+        return None
+
+    def _access_ext(self, kind, path, label):
+        k = self.k
+        self.k += 1
+        self.trace.append("%s %s" % (kind, label))
+        if kind != "stat":
+            self.unknown.append("%s %s" % (kind, label))
+        if k in self.plan.deny:
+            raise _oserr(self.plan.deny[k], path)
+
     # ------------------------------------------------------------------ wrappers
     def _open(self, file, mode="r", *a, **kw):
+        if self.active and self._ext(file) is not None:
+            self._access_ext("open", file, self._ext(file))
+            return _REAL["open"](file, mode, *a, **kw)
         if self.active and self._rel(file) is not None:
             if any(c in mode for c in "wax+"):
                 self.unknown.append("open mode %s %s" % (mode, self._rel(file)))
@@ -302,6 +326,9 @@ class FaultFS:
         return _REAL["open"](file, mode, *a, **kw)
 
     def _readlink(self, path, *a, **kw):
+        if self.active and self._ext(path) is not None:
+            self._access_ext("readlink", path, self._ext(path))
+            return _REAL["readlink"](path, *a, **kw)
         if self.active and self._rel(path) is not None:
             self._access("readlink", path)
         return _REAL["readlink"](path, *a, **kw)
@@ -314,11 +341,17 @@ class FaultFS:
         return _REAL["listdir"](path)
 
     def _stat(self, path, *a, **kw):
+        if self.active and not isinstance(path, int) and self._ext(path) is not None:
+            self._access_ext("stat", path, self._ext(path))
+            return _REAL["stat"](path, *a, **kw)
         if self.active and not isinstance(path, int) and self._rel(path) is not None:
             self._access("stat", path)
         return _REAL["stat"](path, *a, **kw)
 
     def _lstat(self, path, *a, **kw):
+        if self.active and self._ext(path) is not None:
+            self._access_ext("lstat", path, self._ext(path))
+            return _REAL["lstat"](path, *a, **kw)
         if self.active and self._rel(path) is not None:
             self._access("lstat", path)
         return _REAL["lstat"](path, *a, **kw)
